@@ -180,6 +180,16 @@ zpur :: pu x: int -> int do
 end
 zvoid :: fn do
 end
+zapply :: fn f: fn int -> int, v: int -> int do
+    f(v)
+end
+zhl :: fn f: fn (int, int) -> int, v: int -> int do
+    f((v, v))
+end
+Zbl :: blob {
+    f: fn [int] -> [int],
+    g: int,
+}
 ztakes_pu :: fn f: pu int -> int -> int do
     f(1)
 end
@@ -327,8 +337,19 @@ class Gen:
         if x < 0.94 and self.enums:
             return ("enum", r.choice(sorted(self.enums)))
         if allow_fn and "hof" in self.features:
-            return fn([self.rand_type(2) for _ in range(r.randint(0, 2))], self.rand_type(2))
+            return fn([self.sig_type() for _ in range(r.randint(0, 2))], self.sig_type())
         return r.choice(BASE)
+
+    def sig_type(self):
+        """a parameter / return type of a function type: a base type, or a tuple / list of base types (their
+        annotations close a bracket inside the signature)"""
+        r = self.r
+        x = r.random()
+        if x < 0.6 or "tuple" not in self.features:
+            return r.choice(BASE)
+        if x < 0.85:
+            return tup(*[r.choice(BASE) for _ in range(r.randint(2, 3))])
+        return lst(r.choice(BASE))
 
     # ---- expressions
     def literal(self, t):
@@ -398,6 +419,10 @@ class Gen:
                 args.append(self.L(INT, str(self.r.randint(0, 2))))
             else:
                 args.append(self.expr(a, ctx, d + 1, "arg"))
+        if any("\n" in a for a in args):
+            # a function literal among the arguments: the argument list is written over several lines
+            self.count("multi-line-args")
+            return "%s(\n%s\n)" % (f.name, ",\n".join(args))
         return "%s(%s)" % (f.name, ", ".join(args))
 
     def simple(self, t, ctx, d):
@@ -468,7 +493,11 @@ class Gen:
             fs = list(self.blobs[t[1]])
             r.shuffle(fs)
             # parenthesised: a blob instance directly followed by `else` is a syntax error
-            return "(%s { %s })" % (t[1], ", ".join("%s: %s" % (f, self.expr(ft, ctx, d + 1, "field-init")) for f, ft in fs))
+            inits = ["%s: %s" % (f, self.expr(ft, ctx, d + 1, "field-init")) for f, ft in fs]
+            if any("\n" in i for i in inits):
+                self.count("multi-line-blob")
+                return "(%s {\n%s,\n})" % (t[1], ",\n".join(inits))
+            return "(%s { %s })" % (t[1], ", ".join(inits))
         if t[0] == "enum":
             self.count("variant")
             v, vt = r.choice(self.enums[t[1]])
@@ -689,7 +718,7 @@ class Gen:
             t = self.rand_type()
             return ["%s%s" % (ind, self.expr(t, ctx, 1, "unused"))]
         if x < 0.97 and "closure" in self.features and ctx.depth < 2:
-            t = fn([self.rand_type(2) for _ in range(r.randint(0, 2))], r.choice([VOID] + BASE), pure=ctx.pure or ("pure" in self.features and r.random() < 0.3))
+            t = fn([self.sig_type() for _ in range(r.randint(0, 2))], r.choice([VOID] + BASE + [self.sig_type()]), pure=ctx.pure or ("pure" in self.features and r.random() < 0.3))
             return self.define(ctx, ind, t)
         if rec is not None and rec.ty[2] == VOID or (rec is not None and r.random() < 0.5):
             pass
@@ -703,7 +732,7 @@ class Gen:
             for _ in range(r.randint(1, 2)):
                 name = self.fresh("B")
                 fields = [(self.fresh("f"), (self.rand_type(1) if r.random() < 0.8 or "hof" not in self.features
-                                             else fn([self.rand_type(2) for _ in range(r.randint(0, 1))], r.choice(BASE))))
+                                             else fn([self.sig_type() for _ in range(r.randint(0, 1))], r.choice(BASE))))
                           for _ in range(r.randint(1, 4))]
                 self.blobs[name] = fields
                 top.append("%s :: blob {\n%s}" % (name, "".join("    %s: %s,\n" % (f, ty_str(t)) for f, t in fields)))
@@ -753,6 +782,21 @@ class Gen:
         i1, i2 = self.m(), self.m()
         body.append("    zga«A%d|var;n»: Zg :«|» ::«/A%d» (Zg { g: 1 })" % (i1, i1))
         body.append("    zgb«A%d|var;n»: Zg :«|» ::«/A%d» (Zg { g: \"s\" })" % (i2, i2))
+        # function literals with tuple / list typed signatures inside multi-line argument lists and blob literals
+        a1, a2, a3, a4 = self.m(), self.m(), self.m(), self.m()
+        body += ["    zhl(",
+                 "        fn p«A%d|param;g»: (int, int)«|»«/A%d» ->«A%d|ret;g» int«|»«/A%d» do" % (a1, a1, a2, a2),
+                 "            p[0] + 1",
+                 "        end,",
+                 "        3",
+                 "    )",
+                 "    zbl :: Zbl {",
+                 "        f: fn q«A%d|param;g»: [int]«|»«/A%d» ->«A%d|ret;g» [int]«|»«/A%d» do" % (a3, a3, a4, a4),
+                 "            q",
+                 "        end,",
+                 "        g: 1,",
+                 "    }"]
+        self.count("bracketed-lambda")
         for f in self.funcs:
             if r.random() < 0.8:
                 body.append("    " + self.E("unused", f.ty[2], self.call(f, sctx, 1), sctx) if f.ty[2] != VOID else "    " + self.call(f, sctx, 1))
